@@ -1,5 +1,5 @@
 CONSTANTS T = 2  N = 64  S = 32  Dir = "dec"  EofPeek = FALSE  Pad = 5
-  Gate = TRUE  NotifyReady = TRUE  NotifyUpdate = TRUE  WaitLoop = TRUE  ReadyTest = TRUE  Spurious = FALSE
+  Gate = TRUE  NotifyReady = TRUE  NotifyUpdate = TRUE  WaitLoop = TRUE  ReadyTest = TRUE  Spurious = FALSE  Unbounded = FALSE
   Loads <- MCLoads  DecPad <- MCDecPad
 SPECIFICATION Spec
 INVARIANTS TypeOK Exclusive NoUnderflow InOrder OutPrefix OutExact Quiescent LockDiscipline
